@@ -67,6 +67,8 @@ Proof.
   - apply inv_gate2; auto.
   - apply inv_send; auto.
   - apply inv_meas; auto.
+  - destruct (Nat.ltb _ _); [apply inv_newreg; auto | exact H].
+  - destruct (Nat.ltb_spec n (length (nodes s))); [apply inv_new_inreg; auto | exact H].
 Qed.
 
 Theorem run_ginv ops : forall s, ginv s -> ginv (run s ops).
